@@ -96,84 +96,73 @@ theorem flush_true_converges {sid : StateId} {snap : Snap} {res : List Responder
   have hrun : run sid snap (popResponders true res).1 = some s' := by rw [hpop]; exact hs'
   refine ⟨by rw [flush_snap_run hrun]; exact hsv, by rw [flush_rem, hpop], flush_result_not_err hrun⟩
 
-/-- **T3, snapshot form (partial) — the observer's own flushes may be placed anywhere** — a
+/-- **T3, snapshot form — the observer's own flushes may be placed anywhere** — a
     `permitExpunge = false` flush (FETCH / STORE / SEARCH / COPY and the trailing flush of every
     selected-state command) does not fail, and handling the retained queue afterwards fails
     nowhere and reaches exactly the snapshot that handling the whole queue in order reaches.
-    All snapshots under the invariant, all queues inside the named hypotheses
-    `UidsOk` (fresh ascending UIDs), `FetchSafe` (no flag change behind a held-back re-add, #10),
-    `NoOwnHeld` (no held-back EXISTS of the session's own making, #8). -/
-theorem flush_false_replay_eq_partial {sid : StateId} {snap : Snap} {res : List Responder}
-    (hinv : Snap.Inv snap) (huid : UidsOk sid snap res) (hsafe : FetchSafe res) (hown : NoOwnHeld sid res) :
+    All snapshots under the invariant, all queues whose EXISTS carry fresh ascending UIDs
+    (`UidsOk`: what the database's `UIDNext` guarantees; see `flush_false_needs_fresh_uids`).
+    (Before the repair "while a re-added message is held back, later EXISTS and its flag changes are
+    held back too" this needed two more hypotheses, see the regression examples below.) -/
+theorem flush_false_replay_eq {sid : StateId} {snap : Snap} {res : List Responder}
+    (hinv : Snap.Inv snap) (huid : UidsOk sid snap res) :
     (∀ e, (flush false false sid snap res).result ≠ .err e) ∧
     replayOk sid snap res ∧
     replayOk sid (flush false false sid snap res).snap (flush false false sid snap res).rem ∧
     replay sid (flush false false sid snap res).snap (flush false false sid snap res).rem = replay sid snap res := by
-  obtain ⟨s1, sF, hs1, hsF1, hsF, _, _⟩ := flush_false_core sid hinv huid hsafe hown
-  have hpop : popResponders false res = popAux [] res := by simp [popResponders]
+  obtain ⟨s1, sF, hs1, hsF1, hsF, _, _⟩ := flush_false_core sid hinv huid
+  have hpop : popResponders false res = popAux [] [] res := by simp [popResponders]
   have hrun : run sid snap (popResponders false res).1 = some s1 := by rw [hpop]; exact hs1
   have hsnap := flush_snap_run (c := false) hrun
-  have hrem : (flush false false sid snap res).rem = (popAux [] res).2 := by rw [flush_rem, hpop]
+  have hrem : (flush false false sid snap res).rem = (popAux [] [] res).2 := by rw [flush_rem, hpop]
   rw [hsnap, hrem]
   have h1 := (run_eq_some_iff false sid s1 sF _).mp hsF1
   have h2 := (run_eq_some_iff false sid snap sF _).mp hsF
   exact ⟨flush_result_not_err hrun, h2.1, h1.1, by simp only [replay]; rw [h1.2, h2.2]⟩
 
-/-- **T3 (partial) — a `permitExpunge = false` flush at any point keeps the invariant** — inside
-    the named hypotheses, if the session converges to `v` before the flush, it converges to the
-    same `v` after it (snapshot after the flush + retained queue), and the flush does not fail. -/
-theorem flush_false_keeps_invariant_partial {sid : StateId} {snap : Snap} {res : List Responder} {v : View}
-    (hinv : Snap.Inv snap) (h : Conv sid snap res v)
-    (huid : UidsOk sid snap res) (hsafe : FetchSafe res) (hown : NoOwnHeld sid res) :
+/-- **T3 — a `permitExpunge = false` flush at any point keeps the invariant** — if the session
+    converges to `v` before the flush, it converges to the same `v` after it (snapshot after the
+    flush + retained queue), and the flush does not fail. -/
+theorem flush_false_keeps_invariant {sid : StateId} {snap : Snap} {res : List Responder} {v : View}
+    (hinv : Snap.Inv snap) (h : Conv sid snap res v) (huid : UidsOk sid snap res) :
     Conv sid (flush false false sid snap res).snap (flush false false sid snap res).rem v ∧
     ∀ e, (flush false false sid snap res).result ≠ .err e := by
-  obtain ⟨he, _, hok, heq⟩ := flush_false_replay_eq_partial hinv huid hsafe hown
+  obtain ⟨he, _, hok, heq⟩ := flush_false_replay_eq hinv huid
   exact ⟨⟨hok, by rw [heq]; exact h.2⟩, he⟩
 
-/-- **The full T3 is false of the code (#10): a flag change behind a held-back re-add is lost** —
-    message 1 is removed and re-added (UID 5) and then gets `\Seen`; the observer (snapshot still
-    holding the old instance) converges to the mailbox in queue order, all UID hypotheses hold and
-    no EXISTS of its own is held back, but a FETCH-style flush pops the `fetch` alone, applies it
-    to the OLD instance and retains `expunge; exists`: after that the session no longer converges
-    — it ends with message 1 unseen forever. -/
-theorem flush_false_counterexample_fetch_after_held_readd :
-    let snap : Snap := [Snap.mkMsg 1 1 []]
-    let res : List Responder := [.expunge 1, .exists 1 5 [] 2 none, .fetch 1 ["\\seen"] .add false false false]
-    let v : View := [{ id := 1, uid := 5, flags := ["\\seen"] }]
-    let f := flush false false 1 snap res
-    snap.invB = true ∧ Conv 1 snap res v ∧ UidsOk 1 snap res ∧ NoOwnHeld 1 res ∧
-    ¬ FetchSafe res ∧
-    f.result = .ok [.fetch 1 (some ["\\seen"]) none] ∧ f.rem = [.expunge 1, .exists 1 5 [] 2 none] ∧
-    ¬ Conv 1 f.snap f.rem v ∧
-    (flush true false 1 f.snap f.rem).snap = [Snap.mkMsg 1 5 []] := by
+/-- **The UID hypothesis is the database's contract, and it is needed**: if a UID is handed out
+    twice (message 1 with UID 5 removed, message 2 added with UID 5 again — `UidsOk` fails), the
+    session converges in queue order, but a FETCH-style flush pops the EXISTS while the old holder
+    of UID 5 is still in the snapshot: `insertOutOfOrder` panics on the duplicate UID.  (Not
+    reachable while `UIDNext` only grows; `converges` derives `UidsOk` from that.) -/
+theorem flush_false_needs_fresh_uids :
+    let snap : Snap := [Snap.mkMsg 1 5 []]
+    let res : List Responder := [.expunge 1, .exists 2 5 [] 2 none]
+    let v : View := [{ id := 2, uid := 5, flags := [] }]
+    snap.invB = true ∧ Conv 1 snap res v ∧ ¬ UidsOk 1 snap res ∧
+    (flush false false 1 snap res).result = .err .panic := by
   decide
 
-/-- **The full T3 is false of the code (#8): a held-back EXISTS of the session's own making makes
-    a later flush fail** — session 1 re-adds message 1 itself (UID 5) while the removal of the old
-    instance is pending, then another party adds message 2 (UID 6).  In queue order the session
-    converges; a FETCH-style flush pops the foreign EXISTS only; when the retained own EXISTS is
-    finally handled, the strict-ascending `snap.appendMessage` refuses UID 5 after UID 6: the NOOP
-    fails with `ErrOutOfOrderUIDInsertion`, the popped responders are gone and the session never
-    shows message 1 again. -/
-theorem flush_false_counterexample_own_readd_held :
-    let snap : Snap := [Snap.mkMsg 1 1 []]
-    let res : List Responder := [.expunge 1, .exists 1 5 [] 1 (some 1), .exists 2 6 [] 2 none]
-    let v : View := [{ id := 1, uid := 5, flags := [] }, { id := 2, uid := 6, flags := [] }]
-    let f := flush false false 1 snap res
-    snap.invB = true ∧ Conv 1 snap res v ∧ UidsOk 1 snap res ∧ FetchSafe res ∧ ¬ NoOwnHeld 1 res ∧
-    f.result = .ok [.exists 2] ∧ f.rem = [.expunge 1, .exists 1 5 [] 1 (some 1)] ∧
-    ¬ Conv 1 f.snap f.rem v ∧
-    (flush true false 1 f.snap f.rem).result = .err .outOfOrder ∧
-    (flush true false 1 f.snap f.rem).snap = [Snap.mkMsg 2 6 []] := by
-  decide
+/-- **The retained queue stays inside the hypothesis** — after a `permitExpunge = false` flush the
+    snapshot it leaves and the queue it retains satisfy `UidsOk` again (a pop never lets a later
+    EXISTS overtake a held-back one), so T3 can be applied flush after flush. -/
+theorem flush_false_keeps_uidsOk {sid : StateId} {snap : Snap} {res : List Responder}
+    (hinv : Snap.Inv snap) (huid : UidsOk sid snap res) :
+    Snap.Inv (flush false false sid snap res).snap ∧
+    UidsOk sid (flush false false sid snap res).snap (flush false false sid snap res).rem := by
+  obtain ⟨s1, sF, hs1, _, _, huid1, _⟩ := flush_false_core sid hinv huid
+  have hpop : popResponders false res = popAux [] [] res := by simp [popResponders]
+  have hrun : run sid snap (popResponders false res).1 = some s1 := by rw [hpop]; exact hs1
+  rw [flush_snap_run (c := false) hrun, flush_rem, hpop]
+  exact ⟨run_inv hinv hs1, huid1⟩
 
-/-- **The invariant holds along every history** (partial) — start from a session whose snapshot
-    shows the mailbox and whose queue is empty; let any finite sequence of rounds happen: admissible
-    changes by any party (responder appended to the queue) and flushes of the observer with either
-    `permitExpunge`, outside CLOSE, every `permitExpunge = false` flush meeting a queue inside
-    `FetchSafe` / `NoOwnHeld` (`RoundsOk`).  Then at the end (hence at every point) the session
+/-- **The invariant holds along every history** — start from a session whose snapshot shows the
+    mailbox and whose queue is empty; let any finite sequence of rounds happen: admissible changes
+    by any party (responder appended to the queue) and flushes of the observer with either
+    `permitExpunge`, outside CLOSE, placed anywhere (`RoundsOk` only asks that the changes are
+    admissible and broadcast their responder).  Then at the end (hence at every point) the session
     still converges to the mailbox as changed by all the changes. -/
-theorem history_invariant_partial {sid : StateId} {snap0 : Snap} {mb0 : Mbox} (h0 : SameView snap0 mb0.view)
+theorem history_invariant {sid : StateId} {snap0 : Snap} {mb0 : Mbox} (h0 : SameView snap0 mb0.view)
     (hwf : mb0.Wf) (rounds : List Round) (hok : RoundsOk sid { snap := snap0, res := [] } mb0 rounds) :
     Conv sid (runRounds sid { snap := snap0, res := [] } mb0 rounds).1.snap
       (runRounds sid { snap := snap0, res := [] } mb0 rounds).1.res
@@ -182,20 +171,49 @@ theorem history_invariant_partial {sid : StateId} {snap0 : Snap} {mb0 : Mbox} (h
   rw [← runRounds_view sid]
   exact this.conv
 
-/-- **T4 — C02 for a whole history** (partial: under the named hypotheses of T3 at the
-    `permitExpunge = false` flushes) — for every initial snapshot that shows the mailbox, every
+/-- **T4 — C02 for a whole history** — for every initial snapshot that shows the mailbox, every
     finite history of admissible changes by other sessions, the connector or the session itself,
     and every placement of the observer's own flushes (before, between or after the other parties'
-    steps), a final `permitExpunge = true` flush (NOOP) does not fail, empties the queue and leaves
-    the snapshot identical to the mailbox `v0` with all changes applied: the same messages with the
-    same UIDs in the same order with the same flags (ignoring `\Recent`). -/
+    steps, with either `permitExpunge`), a final `permitExpunge = true` flush (NOOP) does not fail,
+    empties the queue and leaves the snapshot identical to the mailbox `v0` with all changes
+    applied: the same messages with the same UIDs in the same order with the same flags (ignoring
+    `\Recent`). -/
 theorem converges {sid : StateId} {snap0 : Snap} {mb0 : Mbox} (h0 : SameView snap0 mb0.view)
     (hwf : mb0.Wf) (rounds : List Round) (hok : RoundsOk sid { snap := snap0, res := [] } mb0 rounds) :
     let st := (runRounds sid { snap := snap0, res := [] } mb0 rounds).1
     SameView (flush true false sid st.snap st.res).snap (mb0.view.applyAll (changesOf rounds)) ∧
     (flush true false sid st.snap st.res).rem = [] ∧
     ∀ e, (flush true false sid st.snap st.res).result ≠ .err e :=
-  flush_true_converges (history_invariant_partial h0 hwf rounds hok)
+  flush_true_converges (history_invariant h0 hwf rounds hok)
+
+/-! ### Regression: the two histories on which T3 used to fail now converge -/
+
+/-- (#10, repaired) message 1 is removed and re-added (UID 5) and then gets `\Seen` while the
+    observer still shows the old instance: the FETCH-style flush now holds the flag change back
+    together with the re-add, and the session converges — message 1 ends up seen. -/
+example :
+    let snap : Snap := [Snap.mkMsg 1 1 []]
+    let res : List Responder := [.expunge 1, .exists 1 5 [] 2 none, .fetch 1 ["\\seen"] .add false false false]
+    let v : View := [{ id := 1, uid := 5, flags := ["\\seen"] }]
+    let f := flush false false 1 snap res
+    Conv 1 snap res v ∧ UidsOk 1 snap res ∧
+    f.result = .ok [] ∧ f.rem = res ∧ Conv 1 f.snap f.rem v ∧
+    (flush true false 1 f.snap f.rem).snap = [Snap.mkMsg 1 5 ["\\seen"]] := by
+  decide
+
+/-- (#8, repaired) session 1 re-adds message 1 itself (UID 5) while the removal of the old instance
+    is pending, then another party adds message 2 (UID 6): the FETCH-style flush now holds the
+    foreign EXISTS back behind the session's own one, and the NOOP succeeds with both messages. -/
+example :
+    let snap : Snap := [Snap.mkMsg 1 1 []]
+    let res : List Responder := [.expunge 1, .exists 1 5 [] 1 (some 1), .exists 2 6 [] 2 none]
+    let v : View := [{ id := 1, uid := 5, flags := [] }, { id := 2, uid := 6, flags := [] }]
+    let f := flush false false 1 snap res
+    Conv 1 snap res v ∧ UidsOk 1 snap res ∧
+    f.result = .ok [] ∧ f.rem = res ∧ Conv 1 f.snap f.rem v ∧
+    (flush true false 1 f.snap f.rem).result = .ok [.expunge 1, .exists 2] ∧
+    (flush true false 1 f.snap f.rem).snap = [Snap.mkMsg 1 5 [], Snap.mkMsg 2 6 []] := by
+  decide
 
 /-! ### Non-vacuity: concrete histories meeting the hypotheses -/
 
@@ -220,20 +238,21 @@ end Ex
 
 /-- a queue with a held-back removal + re-add of message 1, a flag change of message 2 and a new
     message 3 (the session's own): the hypotheses of T3 hold, the theorem applies, and the
-    FETCH-style flush really splits the queue -/
+    FETCH-style flush really splits the queue (the flag change goes out, both EXISTS wait) -/
 example :
     Conv 1 (flush false false 1 Ex.snap Ex.res).snap (flush false false 1 Ex.snap Ex.res).rem Ex.v ∧
-    (flush false false 1 Ex.snap Ex.res).rem = [.expunge 1, .exists 1 5 [] 2 none] ∧
-    (flush false false 1 Ex.snap Ex.res).snap.length = 3 :=
-  ⟨(flush_false_keeps_invariant_partial (v := Ex.v) ⟨by decide, by decide⟩ (by decide) (by decide)
-      (by decide) (by decide)).1, by decide, by decide⟩
+    (flush false false 1 Ex.snap Ex.res).rem =
+      [.expunge 1, .exists 1 5 [] 2 none, .exists 3 6 ["\\recent"] 1 (some 1)] ∧
+    (flush false false 1 Ex.snap Ex.res).result = .ok [.fetch 2 (some ["\\recent", "\\seen"]) none] :=
+  ⟨(flush_false_keeps_invariant (v := Ex.v) ⟨by decide, by decide⟩ (by decide) (by decide)).1,
+    by decide, by decide⟩
 
 /-- a whole history: message 1 is moved out and back in (held back by the observer's FETCHes), message
     2 gets `\Seen`, message 3 is appended by the observer itself, the observer flushes in between;
-    `converges` applies and the re-add is still held back when the final NOOP comes -/
+    `converges` applies; the re-add and the later arrival are still held back when the final NOOP comes -/
 example :
     (runRounds 7 { snap := Ex.snap0, res := [] } Ex.mb0 Ex.rounds).1.res
-      = [.expunge 1, .exists 1 5 ["\\recent"] 2 none] ∧
+      = [.expunge 1, .exists 1 5 ["\\recent"] 2 none, .exists 3 6 ["\\flagged"] 7 (some 7)] ∧
     SameView (flush true false 7 (runRounds 7 { snap := Ex.snap0, res := [] } Ex.mb0 Ex.rounds).1.snap
         (runRounds 7 { snap := Ex.snap0, res := [] } Ex.mb0 Ex.rounds).1.res).snap
       [{ id := 2, uid := 2, flags := ["\\seen"] }, { id := 1, uid := 5, flags := [] },
